@@ -37,7 +37,10 @@ def enc_pv(v):
     if isinstance(v, int):
         return {"i": str(int(v))}
     if isinstance(v, float):
-        return {"f": repr(float(v))}
+        v = float(v)
+        if v == v and v not in (float("inf"), float("-inf")) and abs(v) >= 1e15 and v == int(v):
+            return {"f": "%d.0" % int(v)}  # every digit of an integer-valued double (repr would shorten it)
+        return {"f": repr(v)}
     if isinstance(v, str):
         return {"s": str(v)}
     if v is None:
@@ -189,6 +192,10 @@ def channels(T, v, eq=None):
         ("file", lambda: parse_file(p, dump)),
         ("json", lambda: p.parse_string(p.dump(Namespace(k=v), format="json")).k),
         ("object", lambda: p.parse_object({"k": v}).k),  # a value of the type passes the registered-type branch unchanged
+        # histories: parse, change the value handed out IN PLACE when it is mutable (code that uses it as a buffer),
+        # parse the same text again — with the same parser and with a new one: every parse gives the original value
+        ("reparse", lambda: reparse(p, lambda q: q.parse_args(["--k=" + res["ser"]]).k)),
+        ("reparse_string", lambda: reparse(p, lambda q: q.parse_string(dump).k, fresh=T)),
     ):
         try:
             c = fn()
@@ -200,6 +207,31 @@ def channels(T, v, eq=None):
             res[name] = False
             res[name + "_exc"] = type(e).__name__ + ": " + str(e)[:120]
     return res, vals
+
+
+def mutate_in_place(x):
+    """what a program may do with a mutable value it was handed; immutable values are left alone"""
+    if isinstance(x, bytearray):
+        x.extend(b"\x00tail")
+        x.reverse()
+        return True
+    if isinstance(x, (list, set, dict)):
+        x.clear()
+        return True
+    return False
+
+
+def reparse(p, parse, fresh=None):
+    first = parse(p)
+    mutate_in_place(first)
+    q = p
+    if fresh is not None:  # a second parser for the same type
+        q = ArgumentParser(exit_on_error=False)
+        q.add_argument("--cfg", action=ActionConfigFile)
+        q.add_argument("--k", type=fresh)
+    second = parse(q)
+    mutate_in_place(second)
+    return parse(p)
 
 
 def parse_file(p, dump):
@@ -221,7 +253,7 @@ def run_range(case):
         res["back"] = [str(back.start), str(back.stop), str(back.step)]
     except ValueError:
         res["back"] = None
-    res["chan_ok"] = all(res.get(k) is True for k in ("string", "argv", "file", "json", "object"))
+    res["chan_ok"] = all(res.get(k) is True for k in ("string", "argv", "file", "json", "object", "reparse", "reparse_string"))
     return res
 
 
@@ -248,7 +280,7 @@ def run_td(case):
     td = timedelta(microseconds=1) * int(case["total"])
     res, _ = channels(timedelta, td)
     res.update(run_tddes({"value": {"s": res["ser"]}}))
-    res["chan_ok"] = all(res.get(k) is True for k in ("string", "argv", "file", "json", "object"))
+    res["chan_ok"] = all(res.get(k) is True for k in ("string", "argv", "file", "json", "object", "reparse", "reparse_string"))
     return res
 
 
@@ -330,8 +362,9 @@ def _run_decimal(case, d):
     res["ser_float"] = res["ser_type"] == "float"
     if res["ser_type"] not in ("float", "str"):
         return {"crash": "serializer returned " + res["ser_type"]}
-    res["file_equal"] = bool(res.get("string") is True and res.get("file") is True and res.get("object") is True)
-    res["argv_equal"] = bool(res.get("argv") is True)
+    res["file_equal"] = bool(res.get("string") is True and res.get("file") is True and res.get("object") is True
+                             and res.get("reparse_string") is True)
+    res["argv_equal"] = bool(res.get("argv") is True and res.get("reparse") is True)
     res["json_equal"] = bool(res.get("json") is True)
     return res
 
@@ -357,7 +390,7 @@ def run_builtin(case):
     else:
         raise SystemExit("unknown builtin " + t)
     res, _ = channels(T, v, eq)
-    res["all_equal"] = all(res.get(k) is True for k in ("string", "argv", "file", "json", "object"))
+    res["all_equal"] = all(res.get(k) is True for k in ("string", "argv", "file", "json", "object", "reparse", "reparse_string"))
     return res
 
 
